@@ -1333,10 +1333,12 @@ static void compute_primalI_inf (
 	EGLPNUM_TYPE*ftol = &(lp->tol->ip_tol);
 	EGLPNUM_TYPENAME_EGlpNumZero (*inf);
 
+	/* the size of the violation, as in compute_primalII_inf: the pricing rules
+	 * that do not square it pick the largest positive entry */
 	if (EGLPNUM_TYPENAME_EGlpNumIsLess (*ftol, *x) && EGLPNUM_TYPENAME_EGlpNumIsNeqq (*u, EGLPNUM_TYPENAME_INFTY))
 		EGLPNUM_TYPENAME_EGlpNumCopy (*inf, *x);
 	else if (EGLPNUM_TYPENAME_EGlpNumIsNeqq (*l, EGLPNUM_TYPENAME_NINFTY) && EGLPNUM_TYPENAME_EGlpNumIsSumLess (*x, *ftol,EGLPNUM_TYPENAME_zeroLpNum))
-		EGLPNUM_TYPENAME_EGlpNumCopy (*inf, *x);
+		EGLPNUM_TYPENAME_EGlpNumCopyNeg (*inf, *x);
 }
 
 static void compute_primalII_inf (
